@@ -141,7 +141,7 @@ impl Formatter {
             }
             ImportKind::Python(name) => {
                 self.writer.write("import python \"");
-                self.writer.write(name);
+                self.writer.write(&escape_string(name));
                 self.writer.write("\"");
                 if let Some(alias) = &import.alias {
                     self.writer.write(" as ");
@@ -409,6 +409,7 @@ impl Formatter {
         }
         self.writer.write("def ");
         self.writer.write(&func.name);
+        self.format_type_params(&func.type_params);
         self.writer.write("(");
         self.format_params(&func.params);
         self.writer.write(") -> ");
@@ -531,6 +532,9 @@ impl Formatter {
     }
 
     fn format_param(&mut self, param: &Param) {
+        if param.is_mut {
+            self.writer.write("mut ");
+        }
         self.writer.write(&param.name);
         self.writer.write(": ");
         self.format_type(&param.ty.node);
@@ -937,7 +941,11 @@ impl Formatter {
                 self.writer.write("f\"");
                 for part in parts {
                     match part {
-                        FStringPart::Literal(s) => self.writer.write(s),
+                        FStringPart::Literal(s) => {
+                            // Literal text is stored unescaped; `{`/`}` were written doubled in the source.
+                            self.writer
+                                .write(&escape_string(s).replace('{', "{{").replace('}', "}}"));
+                        }
                         FStringPart::Expr(expr) => {
                             self.writer.write("{");
                             self.format_expr(&expr.node);
@@ -997,7 +1005,8 @@ impl Formatter {
     fn format_literal(&mut self, lit: &Literal) {
         match lit {
             Literal::Int(n) => self.writer.write(&n.to_string()),
-            Literal::Float(f) => self.writer.write(&f.to_string()),
+            // `{:?}` keeps a fractional part or an exponent, so the text lexes as a float again (`1.0`, not `1`).
+            Literal::Float(f) => self.writer.write(&format!("{:?}", f)),
             Literal::String(s) => {
                 self.writer.write("\"");
                 self.writer.write(&escape_string(s));
@@ -1006,7 +1015,10 @@ impl Formatter {
             Literal::Bytes(b) => {
                 self.writer.write("b\"");
                 for byte in b {
-                    if *byte >= 32 && *byte < 127 {
+                    if *byte == b'"' || *byte == b'\\' {
+                        self.writer.write("\\");
+                        self.writer.write(&(*byte as char).to_string());
+                    } else if *byte >= 32 && *byte < 127 {
                         self.writer.write(&(*byte as char).to_string());
                     } else {
                         self.writer.write(&format!("\\x{:02x}", byte));
